@@ -29,14 +29,16 @@ vars == <<f, v, res>>
 -----------------------------------------------------------------------------
 (* the universe *)
 Values == {Absent, NoneV, Bool(TRUE), Bool(FALSE), Num(0), Num(10), Num(15), Num(50), Num(-10),
-           Str(<<>>), Str(<<"a">>), Str(<<"a", "b">>), Str(<<"b">>), Str(<<"1">>), Dict(1), Dict(2)}
+           Str(<<>>), Str(<<"a">>), Str(<<"a", "b">>), Str(<<"b">>), Str(<<"1">>), Dict(1), Dict(2), Dict(3), Dict(4)}
+\* Dict(3), Dict(4): plain dicts that have only one of the two keys of an operator object (the harness concretises them
+\* as {'operator': '<', 'threshold': 3} and {'value': 10, 'unit': 's'}): they are plain values, compared by equality
 
 Patterns == {<<>>, <<Lit("a")>>, <<Lit("a"), Lit("b")>>, <<Lit("1")>>, <<Lit("a"), Star>>, <<Any1, Lit("b")>>, <<Star>>,
              <<Set({"a", "c"}), Lit("b")>>, <<NSet({"a"})>>, <<Star, Lit("b")>>, <<Any1>>}
 
 Ops == {"=", "<", "<=", ">", ">=", "!="}      \* "!=" stands for any unknown operator
 
-AtomVals  == {NoneV, Bool(TRUE), Bool(FALSE), Num(0), Num(10), Num(15), Num(50), Dict(1)}
+AtomVals  == {NoneV, Bool(TRUE), Bool(FALSE), Num(0), Num(10), Num(15), Num(50), Dict(1), Dict(3), Dict(4)}
 OpVals    == {NoneV, Bool(TRUE), Num(10), Num(15), Str(<<"a">>), Str(<<"a", "b">>), Dict(1)}
 Simple    == {Atom(x) : x \in AtomVals} \cup {Pat(p) : p \in Patterns} \cup {OpF(o, x) : o \in Ops, x \in OpVals}
 \* alternatives used inside lists (a representative subset keeps the universe a few thousand pairs)
